@@ -327,6 +327,12 @@ def mut_alphabet(v, seed):
     for (s, e) in rg:
         ops.append(['remove', None, s, e])
     ops.append(['apply', R['N'], 0, None, False])
+    # the same setting through the other documented spellings (name, enum member, int): applied twice over
+    # overlapping ranges they must still be tracked as two separate applications
+    for sp in ('name:bold', 'enum:BOLD', 'int:1', 'name:bold;fg_red'):
+        for (s_, e_) in explore.ranges(L):
+            ops.append(['apply', sp, s_, e_, True])
+        ops.append(['remove', sp, 0, max(1, L - 1)])
     ops.append(['apply', '[xm', 0, 1, True])
     for w in (0, L + 1, L + 2):
         for ext in (True, False):
